@@ -190,9 +190,13 @@ impl Forwarder {
                     error!(error = %e, "Failed to send payload.");
                     telemetry_update.track_packet_send_failed(payload.len());
                     payloads_dropped += 1;
+                    #[cfg(metrics_verif)]
+                    metrics::verif::point("fwd.send.post", &[0, payload.len() as i64]);
                 } else {
                     telemetry_update.track_packet_send_succeeded(payload.len());
                     payloads_sent += 1;
+                    #[cfg(metrics_verif)]
+                    metrics::verif::point("fwd.send.post", &[1, payload.len() as i64]);
                 }
 
                 // Figure out how long we should sleep based on the remaining time until the next flush and the number
